@@ -173,7 +173,7 @@ def main(argv=None):
         print(l)
 
     wall = time.time() - t0
-    if not args.only:
+    if not args.only and os.path.realpath(repo_root()) == '/repo':       # evidence describes /repo only, never a scratch copy (PYVC_REPO)
         write_evidence(mod, prop, args.tier, seed, results, proved, d_obls, violations, undecided, excluded,
                        known_hit, canaries_total, canaries_refuted, bounded_evals, bounded_distinct, wall, xc_total, xc_bad)
     print('%s tier=%s units=%d obligations=%d discharged=%d refuted=%d undecided=%d known-region=%d canaries=%d/%d bounded-evals=%d crosschecks=%d/%d wall=%.1fs exit=%d'
